@@ -31,7 +31,9 @@ def execute(rules, S, names, free=()):
         for nm, f in zip(vs, fns):
             if f is not None:
                 nb.set_update_function(nm, f)
-        bn = cleanup_network(nb)
+        # NOT cleanup_network: a SuccessionDiagram gives free inputs the identity function; network_to_petrinet and
+        # percolate_network are public functions that must also take the network as AEON loads it
+        bn = nb.infer_valid_graph()
         assert all(bn.get_update_function(nm) is None for nm in free)
     g = ba.AsynchronousGraph(bn)
     pn = network_to_petrinet(bn)
